@@ -210,7 +210,11 @@ class AsyncFIXConnection:
                 if logout_message:
                     # Only add message if logout_message != ""
                     msg[FTag.Text] = logout_message
-                await self.send_msg(msg)
+                try:
+                    await self.send_msg(msg)
+                except Exception:
+                    # the disconnect always completes, also when its Logout() cannot be sent
+                    self.log.exception("disconnect: Logout could not be sent")
 
             self.log.info(f"Client disconnected, with state: {repr(disconn_state)}")
             if self._socket_writer:
